@@ -26,6 +26,11 @@ SHARDS = {"quick": 1, "thorough": 1}  # one shard; it runs 16 session subprocess
 BUDGET = {"quick": 100.0, "thorough": 900.0}  # ceilings (heavily loaded machine); typical use is 15-25 s / 2-4 min
 WORKERS = 16
 REQUIRE = {
+    "inject_reached:base": 40,
+    "EXIT_base_checked": 40,
+    "inject_reached:sysexit": 8,
+    "split_observed": 12,
+    "split_stale_alarm_window_covered": 4,
     "reach:display._posix_raw_display.Screen._stop": 100,
     "reach:display._posix_raw_display.Screen.signal_restore": 100,
     "reach:display._raw_display_base.Screen._stop_mouse_restore_buffer": 100,
@@ -215,11 +220,6 @@ def expected_keys(spec):
     return out
 
 
-def _is_subseq(a, b):
-    it = iter(b)
-    return all(any(x == y for y in it) for x in a)
-
-
 def split_facts(spec, log, limit, ctx):
     """bookkeeping for split keys -> (some split timed out for real, stale-alarm window covered)"""
     timed_out = False
@@ -382,9 +382,14 @@ def judge(spec, res, ctx, base_rst=None):  # noqa: C901, PLR0912, PLR0915
         ctx.count("ORD_sessions_not_judged_split_timed_out")
     elif not ord_broken:
         if got_keys != exp_keys[: len(got_keys)]:
-            if _is_subseq(exp_keys[: max(0, len(got_keys) - 1)], got_keys) and len(got_keys) <= len(exp_keys) + 2:
-                extra = [k for k in got_keys if k not in exp_keys]
-                add("ORD", "phantom-input-event", f"the filter saw an input event that was never sent: {extra!r}; saw {got_keys!r}, script sent {exp_keys!r}")
+            i, extra = 0, []
+            for g in got_keys:
+                if i < len(exp_keys) and g == exp_keys[i]:
+                    i += 1
+                else:
+                    extra.append(g)
+            if extra and all(g not in exp_keys[i:] for g in extra):
+                add("ORD", "phantom-input-event", f"the filter saw input that was never sent: {extra!r}; saw {got_keys!r}, script sent {exp_keys!r}")
             else:
                 add("ORD", "arrival-order", f"filter saw {got_keys!r}, script sent {exp_keys!r}")
         elif complete and out["how"] == "returned" and got_keys != exp_keys:
@@ -558,10 +563,14 @@ def plan_configs(ctx):
         for lp in ("select", "asyncio", "twisted"):
             plans.append((base_cfg(loop=lp, handlers="custom"), SCRIPT_B, "few"))
         plans.append((base_cfg(mouse=False, paste=False, focus=False), SCRIPT_B, "few"))
+        for lp in LOOPS:
+            plans.append((base_cfg(loop=lp), SCRIPT_P, "few"))
         return plans
     for lp in LOOPS:
         plans.append((base_cfg(loop=lp), SCRIPT_A, "full"))
         plans.append((base_cfg(loop=lp), SCRIPT_S, "full"))
+        plans.append((base_cfg(loop=lp), SCRIPT_P, "full"))
+        plans.append((base_cfg(loop=lp, pop_ups=True, handlers="custom"), SCRIPT_P, "ends"))
         plans.append((base_cfg(loop=lp, pop_ups=True), SCRIPT_A, "full"))
         plans.append((base_cfg(loop=lp, pop_ups=True), SCRIPT_B, "full"))
         plans.append((base_cfg(loop=lp, handlers="custom"), SCRIPT_B, "full"))
@@ -772,8 +781,17 @@ def _run(ctx, runner):
         brst = rst_details(vs)
         pts = injection_points(res["counts"], mode)
         ctx.count("injection_points_enumerated", len(pts))
+        base_pts = set(pts if (mode != "full" or not ctx.quick) else injection_points(res["counts"], "first"))
+        sysexit_pts = set(injection_points(res["counts"], "few" if ctx.quick else "ends")) if (not ctx.quick or (mode == "first" and toks is SCRIPT_S) or mode == "full") else set()
+        if toks is SCRIPT_P and ctx.quick:
+            base_pts, sysexit_pts = set(injection_points(res["counts"], "few")), set()
         for site, k in pts:
-            for kind in ("exit", "boom"):
+            kinds = ["exit", "boom"]
+            if (site, k) in base_pts:
+                kinds.append("base")  # a BaseException that is not an Exception
+            if (site, k) in sysexit_pts:
+                kinds.append("sysexit")
+            for kind in kinds:
                 todo.append((make_spec(cfg, toks, {"site": site, "k": k, "kind": kind}), brst))
     # 1b. the forked-child shortcut must not change what is observed: replay some sessions in brand-new interpreters
     if not runner.fresh:
